@@ -157,6 +157,65 @@ def treeEvsL : List (Nat × Rig.C03.Tree) → List Ev
   | (_, t) :: r => treeEvs t ++ treeEvsL r
 end
 
+/-- the chip an event happens at -/
+def Ev.chip : Ev → Chip
+  | .core c _ => c
+  | .exit c _ => c
+  | .dropped c => c
+  | .deadHop c _ => c
+  | .loop c => c
+  | .fuelOut c => c
+
+mutual
+/-- **The tables agree with a valid routing tree for key `k`** (what C03 + C10 provide; the
+hypothesis of `deliver_of_tree`).  For every node of the tree, entered after `path`:
+* its chip is not on the path of the packet so far (chips of a tree are distinct);
+* the chip's table looks `k` up - first match - to an entry whose route is exactly the node's
+  out-set: the directions of its sub-trees and the routes of its vertex leaves (C10 `tables_exact`);
+* leaf routes are routes (< 24); a leaf route that is a link names a device link
+  (RouteEndpointConstraint), and
+* every hop to a sub-tree is a working link of this chip to the adjacent working chip in that
+  direction (C03 `ValidTree.hops`) and is not a device link. -/
+def Agrees (m : Machine) (dev : List (Chip × Nat)) (T : Chip → List Entry) (k : W) :
+    List Chip → Rig.C03.Tree → Prop
+  | path, .node c subs lv =>
+    c ∉ path ∧
+    (∃ e, Rig.C04.lookup (T c) k = some e ∧
+      ∀ b, b < 24 → (e.route.testBit b = true ↔ b ∈ nodeOuts subs lv)) ∧
+    (∀ r, r ∈ lv.filterMap (·.1) → r < 24 ∧ (r < 6 → (c, r) ∈ dev)) ∧
+    AgreesL m dev T k (c :: path) c subs
+def AgreesL (m : Machine) (dev : List (Chip × Nat)) (T : Chip → List Entry) (k : W) :
+    List Chip → Chip → List (Nat × Rig.C03.Tree) → Prop
+  | _, _, [] => True
+  | path, c, (d, t) :: r =>
+    (d < 6 ∧ linkOk m c d = true ∧ chipOk m t.chip = true ∧ t.chip = step m c d ∧ (c, d) ∉ dev ∧
+      Agrees m dev T k path t) ∧ AgreesL m dev T k path c r
+end
+
+/-- **Every state the packet reaches on tables `T` is matched by an entry that lists the way the
+packet arrived in its `sources`** (the hypothesis of `deliver_congr`; true of tables built from
+trees, where the sources of an entry are exactly the arrival links of the tree nodes).  The states
+are those `visit` explores: same fuel, same path, same forwarding conditions. -/
+def Covered (m : Machine) (dev : List (Chip × Nat)) (T : Chip → List Entry) (k : W) :
+    Nat → List Chip → Chip → Option Nat → Prop
+  | 0, _, _, _ => True
+  | f + 1, path, c, arr =>
+    c ∈ path ∨
+    ∃ e, Rig.C04.lookup (T c) k = some e ∧ e.sources.testBit (srcBit arr) = true ∧
+      ∀ l, l < 6 → e.route.testBit l = true → (c, l) ∉ dev → linkOk m c l = true →
+        chipOk m (step m c l) = true → Covered m dev T k f (c :: path) (step m c l) (some (opp l))
+
+mutual
+/-- the entry that matches `k` at every tree node lists the link the node is entered by
+(`arr`; `none` at the root) among its sources (C10 `tables_exact`, sources clause) -/
+def SrcListed (T : Chip → List Entry) (k : W) : Option Nat → Rig.C03.Tree → Prop
+  | arr, .node c subs _ =>
+    (∀ e, Rig.C04.lookup (T c) k = some e → e.sources.testBit (srcBit arr) = true) ∧ SrcListedL T k subs
+def SrcListedL (T : Chip → List Entry) (k : W) : List (Nat × Rig.C03.Tree) → Prop
+  | [] => True
+  | (d, t) :: r => SrcListed T k (some (opp d)) t ∧ SrcListedL T k r
+end
+
 /-! ### type bridges between the stage models -/
 
 /-- C03 chip (Int × Int, non-negative for chips of the machine) to C10 chip (Nat × Nat) -/
